@@ -81,7 +81,7 @@ static void stageBase(Env& env, const std::string& stage, int V) {
   ParallelOpts o; o.stage = stage; o.size = base(V).d.size(); o.block = 16;
   o.run = [V](uint64_t i, Ctx& c) { Base& b = base(V); c.evals(); if (i >= (uint64_t)NV) c.nontrivial(); W().check(c, *b.d[i], b.t[i], V, "construct", b.name[i]);
     { M cp(*b.d[i]); M as(7); as = cp; as = as; W().check(c, as, b.t[i], V, "copy/assign", b.name[i]); }
-    for (int k = 0; k < 3; k++) { Op1 f(k); M r = f(*b.d[i]); Tab e; for (int v : b.t[i]) e.push_back(op1(k, v)); W().check(c, r, e, V, "Apply1", "op1#" + std::to_string(k) + " on " + b.name[i]); c.count("apply1"); }
+    for (int k = 0; k < 3; k++) { static Op1 keep[3] = {Op1(0), Op1(1), Op1(2)}; Op1& f = keep[k]; M r = f(*b.d[i]); Tab e; for (int v : b.t[i]) e.push_back(op1(k, v)); W().check(c, r, e, V, "Apply1", "op1#" + std::to_string(k) + " on " + b.name[i] + " (functor object reused over the whole run)"); c.count("apply1"); }
     { V1 v; v(*b.d[i]); std::set<int> e(b.t[i].begin(), b.t[i].end()); std::multiset<int> em(e.begin(), e.end()); if (v.seen != em) c.viol("VoidApply1", "leaves_visited_differ", {}, b.name[i]); }
   };
   env.parallel(o);
@@ -91,7 +91,9 @@ static void stageApply2(Env& env, const std::string& stage, int V) {
   uint64_t n = base(V).d.size(); ParallelOpts o; o.stage = stage; o.size = n * n; o.block = 512;
   o.run = [V, n](uint64_t idx, Ctx& c) { Base& b = base(V); size_t i = idx / n, j = idx % n; c.evals(); if (b.t[i] != b.t[j]) c.nontrivial();
     if (c.wantSample() && i > 40 && j > 80) c.sample("Apply2 ops on " + b.name[i] + " , " + b.name[j]);
-    for (int k = 0; k < 4; k++) { Op2 f(k); M r = f(*b.d[i], *b.d[j]); Tab e; for (size_t x = 0; x < b.t[i].size(); x++) e.push_back(op2(k, b.t[i][x], b.t[j][x]));
+    for (int k = 0; k < 4; k++) { static Op2 keep[4] = {Op2(0), Op2(1), Op2(2), Op2(3)};   // ONE functor object per operation for the whole life of the worker: its memo table must not survive a call (node addresses are reused)
+      M r = keep[k](*b.d[i], *b.d[j]); Tab e; for (size_t x = 0; x < b.t[i].size(); x++) e.push_back(op2(k, b.t[i][x], b.t[j][x]));
+      { Op2 fresh(k); M r2 = fresh(*b.d[i], *b.d[j]); if (!(r2 == r)) c.viol("Apply2", "reused_functor_and_fresh_functor_disagree", {}, std::string(OP2N[k]) + " on " + b.name[i] + " , " + b.name[j]); }
       W().check(c, r, e, V, "Apply2", std::string(OP2N[k]) + " on " + b.name[i] + " , " + b.name[j]); c.count("apply2"); }
     { V2 v; v(*b.d[i], *b.d[j]); std::set<std::pair<int, int>> e; for (size_t x = 0; x < b.t[i].size(); x++) e.insert({b.t[i][x], b.t[j][x]}); std::multiset<std::pair<int, int>> em(e.begin(), e.end()); if (v.seen != em) c.viol("VoidApply2", "leaf_pairs_visited_differ", {}, b.name[i] + " , " + b.name[j]); }
   };
@@ -105,7 +107,7 @@ static void stageTrees(Env& env, const std::string& stage, int V, size_t sub) {
   ParallelOpts o; o.stage = stage; o.size = n * n * n; o.block = 256;
   o.run = [V, n, S](uint64_t idx, Ctx& c) { Base& b = base(V); size_t i = (*S)[idx / (n * n)], j = (*S)[idx / n % n], l = (*S)[idx % n]; c.evals(); c.nontrivial();
     const Tab &ti = b.t[i], &tj = b.t[j], &tl = b.t[l]; size_t N = ti.size();
-    for (int k = 0; k < 2; k++) { Op3 f(k); M r = f(*b.d[i], *b.d[j], *b.d[l]); Tab e; for (size_t x = 0; x < N; x++) e.push_back(op3(k, ti[x], tj[x], tl[x])); W().check(c, r, e, V, "Apply3", "op3#" + std::to_string(k) + " on " + b.name[i] + " , " + b.name[j] + " , " + b.name[l]); c.count("apply3"); }
+    for (int k = 0; k < 2; k++) { static Op3 keep[2] = {Op3(0), Op3(1)}; Op3& f = keep[k]; M r = f(*b.d[i], *b.d[j], *b.d[l]); Tab e; for (size_t x = 0; x < N; x++) e.push_back(op3(k, ti[x], tj[x], tl[x])); W().check(c, r, e, V, "Apply3", "op3#" + std::to_string(k) + " on " + b.name[i] + " , " + b.name[j] + " , " + b.name[l]); c.count("apply3"); }
     for (int k1 = 0; k1 < 3; k1++) for (int k2 = 0; k2 < 3; k2++) { Op2 f1(k1), f2(k2);
       { M in = f1(*b.d[i], *b.d[j]); M r = f2(in, *b.d[l]); Tab e; for (size_t x = 0; x < N; x++) e.push_back(op2(k2, op2(k1, ti[x], tj[x]), tl[x])); W().check(c, r, e, V, "Apply2(depth2)", std::string(OP2N[k2]) + "(" + OP2N[k1] + "(" + b.name[i] + "," + b.name[j] + ")," + b.name[l] + ")"); }
       { M in = f1(*b.d[j], *b.d[l]); M r = f2(*b.d[i], in); Tab e; for (size_t x = 0; x < N; x++) e.push_back(op2(k2, ti[x], op2(k1, tj[x], tl[x]))); W().check(c, r, e, V, "Apply2(depth2)", std::string(OP2N[k2]) + "(" + b.name[i] + "," + OP2N[k1] + "(" + b.name[j] + "," + b.name[l] + "))"); }
